@@ -63,6 +63,10 @@ def linear_solvers(tier="quick", seed=0, only=None):
                                 fail(f"C17:{st.name}:non-finite_solution", inp, "non-finite")
                                 continue
                             r = np.linalg.norm(M @ x - b) / (np.linalg.norm(b) + 1e-300)
+                            if st == LinearSolverType.MINRES:
+                                # MINRES' stated stopping rule is relative to ||A|| ||x|| (scipy: rtol = 1e-5), not to ||b||
+                                r = np.linalg.norm(M @ x - b) / (np.linalg.norm(M) * np.linalg.norm(x) + np.linalg.norm(b) + 1e-300)
+                                tol = 1e-4
                             if not r <= tol:
                                 fail(f"C17:{st.name}:residual_too_large:trans={trans}:guess={guess}", inp, f"relative residual {r:.2e} > {tol}")
         # structurally singular: an empty row and column
